@@ -389,6 +389,11 @@ pub fn run(tier: &str, seed: u64, out: &Path) -> i32 {
         crate::lists_corr::cases(&mut o, &mut r, th);
         crate::lists_corr::struct_lit_cases(&mut o, &mut r, th);
         crate::strings_corr::cases_c01(&mut o, &mut r, th);
+        crate::macros_corr::cases(&mut o, &mut r, th);
+        // the opt-in rewrite decisions (model RF/Model/OptRewrites.lean, theorems RF/Props/OptRewrites.lean)
+        let mut r2 = Rng::new(seed ^ 0x0971);
+        crate::optin_corr::cases(&mut o, &mut r2, th);
+        crate::vertical_corr::cases(&mut o, &mut r2, th);
     }
     o.finish(out, jobs())
 }
